@@ -263,4 +263,12 @@ WITNESSES = [
                  "        if not hasattr(self, \"_function_cache\"):\n            self._function_cache = {}\n"
                  "        per_method = self._function_cache.setdefault(fname, {})\n        if args not in per_method:\n"
                  "            per_method[args] = function(self, *args)\n        return per_method[args]")]),
+    # registry: look-up through a temporary and a membership test, pool update by a guarded remove
+    dict(id="c19-ok-registry-lookup", prop="C19", file=I, expect=None,
+         edits=[("            symbol = self._symbols[space][spin].get(idx, None)\n            if symbol is not None:\n"
+                 "                ret[key].append(symbol)\n                continue\n",
+                 "            known = self._symbols[space][spin]\n            if idx in known:\n"
+                 "                ret[key].append(known[idx])\n                continue\n"),
+                ("            try:\n                self._generic_indices[space][spin].remove(idx)\n            except ValueError:\n                continue\n",
+                 "            pool = self._generic_indices[space][spin]\n            if idx in pool:\n                pool.remove(idx)\n")]),
 ]
